@@ -143,7 +143,7 @@ PROPS = {
     },
     "C06": {
         "streams": ["addr", "resolve"],
-        "theorems": "C06_local_round_trip, C06_local_resolve_canonical (all strings / all pairs of local values)",
+        "theorems": "C06_local_round_trip, C06_local_resolve_canonical (all strings / all pairs of local values); C06_registry_round_trip, C06_registry_package_round_trip (every well-formed registry package value and every valid sub-path without '?': parse (print v) = v; well-formedness is evaluated on every registry value the parsers return in a run); refutation witnesses for the five known mechanisms (KF-C06-1..5); PARTIAL: the corresponding theorems for final registry and remote values are not proved",
         "assumptions": _ADDR_ASSUME + ["derived values (ResolveRelative*, Versioned, SourceAddr, FinalSourceAddr) are printed, re-parsed and compared on the implementation by the addr stream's oracle"],
     },
     "C07": {
